@@ -582,10 +582,11 @@ pub fn run_check(ctx: &Ctx) -> i32 {
         sweep(ctx, "18 contexts x F<=1 x 6 handler sets x L0,L1,LB x every handler index x memory limits (every value to len+8, then every failure-moment step)", Space::CtxFrags { k, max: 1 }, &sets, l1, MemSweep::Windows);
         sweep(ctx, "F<=2 x 2 handler sets x L0,L1 x memory limits (every value to len+8, then every failure-moment step)", Space::Frags { k, max: 2 }, &two, l1only, MemSweep::Windows);
         sweep(ctx, "Fcore<=3 x 2 handler sets x L0,LB x every handler index x flags", Space::Frags { k: F_CORE, max: 3 }, &two, l0, MemSweep::None);
-        sweep(ctx, "F<=2 x 2 handler sets in windows-1252 with a non-ASCII character inside the bail-out markers x L0,L1 x every handler index + memory limits", Space::Frags { k, max: 2 }, &legacy, l1only, MemSweep::Windows);
+        sweep(ctx, "F<=2 x 2 handler sets in windows-1252 with a non-ASCII character inside the bail-out markers x L0,L1 x every handler index", Space::Frags { k, max: 2 }, &legacy, l1only, MemSweep::None);
+        sweep(ctx, "F<=1 x 2 handler sets in windows-1252 with a non-ASCII character inside the bail-out markers x L0,L1,LB x memory limits", Space::Frags { k, max: 1 }, &legacy, l1, MemSweep::Windows);
         removal_sweep(ctx, "Fcore<=3 x 3 content-removing handler sets x a failure at every handler invocation x L1,LB: sink ++ unwritten input equals the single-write run's", Space::Frags { k: F_CORE, max: 3 }, l1);
         sweep(ctx, "Fcore<=3 x 3 content-removing handler sets (with text / element / end-tag observers inside the removed content) x L0,L1,LB x every handler index x flags: output before the markers = what the writes up to the start of the raw flush produce", Space::Frags { k: F_CORE, max: 3 }, &removing, l1, MemSweep::None);
-        sweep(ctx, "F<=2 x 3 content-removing handler sets x L0,L1 x memory limits (every value to len+8, then every failure-moment step)", Space::Frags { k, max: 2 }, &removing, l1only, MemSweep::Windows);
+        sweep(ctx, "F<=2 x 2 content-removing handler sets x L0,L1 x memory limits (every value to len+8, then every failure-moment step)", Space::Frags { k, max: 2 }, &removing[..2], l1only, MemSweep::Windows);
         ambiguity_sweep(ctx);
     } else {
         sweep(ctx, "F<=3 x 6 handler sets x L0,L1,LB x every handler index x flags", Space::Frags { k, max: 3 }, &sets, l1, MemSweep::None);
